@@ -351,3 +351,86 @@ class DateParser_parse:
 
 
 CONTRACTS = [localize_timezone, apply_timezone, apply_timezone_from_settings, DateParser_parse]
+
+
+EPOCH_US = 719163 * DAY
+
+
+class get_date_from_timestamp:
+    """date.get_date_from_timestamp (C01 epoch part, C12 timestamp parser): a 10-digit epoch number
+    with optional 3/6 more digits (and '-' for the negative parser) is exactly that instant, with
+    milli/microsecond precision, expressed per the timezone settings; anything else -> None."""
+
+    name = "date.get_date_from_timestamp"
+    func = "dateparser.date.get_date_from_timestamp"
+    props = ["C01", "C12"]
+
+    @staticmethod
+    def cases():
+        out = []
+        for digits in (10, 13, 16):
+            for negative in (False, True):
+                for c in TZ_SETTINGS:
+                    if negative and (c["TO"] != "unset" or c["AWARE"] != "default"):
+                        continue
+                    if digits == 13 and c["AWARE"] is True and c["TO"] != "unset":
+                        continue
+                    out.append(dict(c, digits=digits, negative=negative))
+        out.append(dict(TIMEZONE="pytz", TO="unset", AWARE="default", digits=11, negative=False))
+        out.append(dict(TIMEZONE="pytz", TO="unset", AWARE="default", digits=9, negative=False))
+        return out
+
+    @staticmethod
+    def setup(inp, case):
+        from dateparser.date import get_date_from_timestamp as f
+        from pyvc.harness import build
+
+        env = Env(inp, _kinds(case))
+        st = _tz_settings(inp, case, env)
+        n = case["digits"]
+        tpl = (["-"] if case["negative"] else []) + [("s", min(n, 10))]
+        if n >= 13:
+            tpl.append(("ms", 3))
+        if n >= 16:
+            tpl.append(("us", 3))
+        if n == 11:
+            tpl.append(("x", 1))
+        s, fields = build(inp, tpl)
+        if inp.symbolic:
+            inp.assume(fields["s"] >= 10 ** 9) if n >= 10 else None
+        elif n >= 10 and fields["s"] < 10 ** 9:
+            from pyvc.driver import Rejected
+
+            raise Rejected("leading zero")
+        return f, (s, st), {"negative": case["negative"]}, dict(env=env, f=fields, s=s)
+
+    @staticmethod
+    def post(case, g, out):
+        env, f = g["env"], g["f"]
+        if not out.ok:
+            return {"no-exception": out.raised(OverflowError) and False}
+        r = out.value
+        if case["digits"] in (9, 11):
+            return {"no-exception": True, "not-an-epoch-number=>None": r is None}
+        if r is None:
+            return {"no-exception": True, "epoch-number-recognised": False}
+        # the written number, read as seconds.milliseconds[microseconds] with its sign
+        sub = f.get("ms", 0) * 1000 + f.get("us", 0)
+        magnitude = f["s"] * US + sub
+        inst = EPOCH_US - magnitude if case["negative"] else EPOCH_US + magnitude
+        tzs = case["TIMEZONE"]
+        zone0 = env.zone("local" if tzs == "local" else "ZoneA")
+        final = zone0 if case["TO"] == "unset" else env.zone("ZoneB")
+        wall = env.wall_at(final, inst)
+        res = {
+            "no-exception": True,
+            "epoch-number-recognised": True,
+            "that-instant-in-the-configured-zone": _wall_us(r) == wall,
+            "awareness-follows-setting": (r.tzinfo is not None) == (case["AWARE"] is True),
+        }
+        if r.tzinfo is not None:
+            res["aware-result-denotes-the-same-instant"] = _result_instant(r) == inst
+        return res
+
+
+CONTRACTS += [get_date_from_timestamp]
